@@ -66,6 +66,7 @@ type C struct {
 	known    []Finding
 	excepted []*Exception
 	seen     map[string]bool
+	la       *lockAnalysis
 }
 
 func (c *C) Count(name string, n int) { c.Counts[name] += n }
